@@ -98,3 +98,49 @@ extern "C" void w_TightenBounds(PS_PARAMS, int m_j, double m_origupper, double m
    h.body();
 }
 #endif
+
+/* ------------------------------------------------------------------------------------------- */
+#ifdef INST_RowSingleton
+struct H : PostStepHost
+{
+   int m_i; int m_old_i; int m_j; R m_lhs; R m_rhs; bool m_strictLo; bool m_strictUp; bool m_maxSense; R m_obj;
+   DSVectorBase<R> m_col; R m_newLo; R m_newUp; R m_oldLo; R m_oldUp; R m_row_obj;
+   void body() const
+   {
+      PS_PROLOGUE
+#include "RowSingletonPS.inc"
+   }
+};
+extern "C" void w_RowSingleton(PS_PARAMS, int m_i, int m_old_i, int m_j, double m_lhs, double m_rhs, int m_strictLo, int m_strictUp,
+                               int m_maxSense, double m_obj, int* col_idx, double* col_val, int col_n, double m_newLo, double m_newUp,
+                               double m_oldLo, double m_oldUp, double m_row_obj)
+{
+   H h; PS_BIND(h) h.m_i = m_i; h.m_old_i = m_old_i; h.m_j = m_j; h.m_lhs = m_lhs; h.m_rhs = m_rhs; h.m_strictLo = m_strictLo != 0;
+   h.m_strictUp = m_strictUp != 0; h.m_maxSense = m_maxSense != 0; h.m_obj = m_obj; h.m_newLo = m_newLo; h.m_newUp = m_newUp;
+   h.m_oldLo = m_oldLo; h.m_oldUp = m_oldUp; h.m_row_obj = m_row_obj;
+   PS_SVEC(h.m_col, col_idx, col_val, col_n, nR)
+   h.body();
+}
+#endif
+
+/* ------------------------------------------------------------------------------------------- */
+#ifdef INST_FixVariable
+struct H : PostStepHost
+{
+   int m_j; int m_old_j; R m_val; R m_obj; R m_lower; R m_upper; bool m_correctIdx; DSVectorBase<R> m_col;
+   void body() const
+   {
+      PS_PROLOGUE
+#include "FixVariablePS.inc"
+   }
+};
+extern "C" void w_FixVariable(PS_PARAMS, int m_j, int m_old_j, double m_val, double m_obj, double m_lower, double m_upper, int m_correctIdx,
+                              int* col_idx, double* col_val, int col_n)
+{
+   H h; PS_BIND(h) h.m_j = m_j; h.m_old_j = m_old_j; h.m_val = m_val; h.m_obj = m_obj; h.m_lower = m_lower; h.m_upper = m_upper;
+   h.m_correctIdx = m_correctIdx != 0;
+   PS_SVEC(h.m_col, col_idx, col_val, col_n, nR)
+   gp_i1 = col_idx;
+   h.body();
+}
+#endif
